@@ -9,6 +9,7 @@ import (
 	"time"
 
 	"github.com/google/go-tdx-guest/testing/testdata"
+	"github.com/google/go-tdx-guest/verify"
 
 	"verif/sim/core"
 	"verif/sim/world"
@@ -405,6 +406,11 @@ func c03Run(r *core.Run) {
 		return
 	}
 	good := c03Endpoint(w, d)
+	var longLived map[int]*verify.Options
+	if r.Index%2 == 1 {
+		longLived = map[int]*verify.Options{O1: worldOpts(w, O1), O2: worldOpts(w, O2)}
+		r.Probe("faults_through_long_lived_options")
+	}
 
 	judge := func(name string, ep *world.Endpoint, expect world.Expectation, why string) {
 		// every fault is judged with collateral checking alone and with revocation checking on top: some
@@ -418,7 +424,21 @@ func c03Run(r *core.Run) {
 		}
 		for _, level := range []int{O1, O2} {
 			c03SetEndpoint(w, d, ep)
-			o := verifyRaw(raw, worldOpts(w, level))
+			opts := worldOpts(w, level)
+			if longLived != nil {
+				// one long-lived options value per level serves the whole run
+				opts = longLived[level]
+				opts.Getter, opts.TrustedRoots, opts.Now = w.PCS, w.Pool, timeSet(w.Times)
+			}
+			o := verifyRaw(raw, opts)
+			if longLived != nil && !strings.HasPrefix(name, "flip-") && expect == world.MustReject && !o.Accepted() {
+				// asked again, the answer is the same: what a rejected response left behind in the options is
+				// not evidence
+				if again := verifyRaw(raw, opts); again.Accepted() {
+					r.Violate("C03:accepted-on-repetition:"+d.route+":"+classOfFault(name), "%s endpoint fault %q: rejected at level %s, then accepted when the very same verification was repeated through the same options value (%s)", d.route, name, optNames[level], why)
+				}
+				r.Eval()
+			}
 			c03SetEndpoint(w, d, good)
 			r.Eval()
 			if expect == world.MustAccept && !o.Accepted() {
@@ -598,6 +618,6 @@ func init() {
 			return 46
 		},
 		Run:       c03Run,
-		MustProbe: []string{"flavour_down", "flavour_up", "dup_member_after_genuine_with_flipping_content", "default_anchor_lookalike_collateral", "second_verifier_with_other_roots"},
+		MustProbe: []string{"flavour_down", "flavour_up", "dup_member_after_genuine_with_flipping_content", "default_anchor_lookalike_collateral", "second_verifier_with_other_roots", "faults_through_long_lived_options"},
 	})
 }
